@@ -105,6 +105,24 @@ StrictOutcomeOk(strict, names, dd, withRootNames, rnames, isErr, namesWritten) =
        IN  (must => isErr) /\ (isErr => may)
 
 ----------------------------------------------------------------------------
+(* MTBDDs: a function is a map from the assignments to values <<tag, int>>
+   ("n" number, "p" +infinity, "m" -infinity, "x" not a number).  A stored
+   graph lists rows <<id, lvl, then, 0, else, 0>> children first, a negative
+   child -k is the k-th entry of the event's terminal table. *)
+MtConst(n, val) == [a \in Asg(n) |-> val]
+MtNode(n, v, T, E) == [a \in Asg(n) |-> IF Bit(a, v) THEN T[a] ELSE E[a]]
+MtSupport(n, F) == {v \in 0 .. n-1 : \E a \in Asg(n) : F[a] # F[SetBit(a, v, ~Bit(a, v))]}
+MtEdge(n, m, terms, id) == IF id < 0 THEN MtConst(n, terms[-id]) ELSE m[id]
+RECURSIVE MtSemMapFrom(_, _, _, _, _, _)
+MtSemMapFrom(n, l2v, g, terms, i, m) ==
+  IF i > Len(g) THEN m
+  ELSE MtSemMapFrom(n, l2v, g, terms, i + 1,
+         (g[i][1] :> MtNode(n, l2v[g[i][2] + 1], MtEdge(n, m, terms, g[i][3]),
+                            MtEdge(n, m, terms, g[i][5]))) @@ m)
+MtSemMap(n, l2v, g, terms) == MtSemMapFrom(n, l2v, g, terms, 1, EmptyMap)
+MtTable(n, vt) == [a \in Asg(n) |-> vt[a + 1]]
+
+----------------------------------------------------------------------------
 (* (b) header contract *)
 
 HasKey(f, key) == \E j \in 1 .. Len(f.hdr) : f.hdr[j].k = key
@@ -120,9 +138,11 @@ Num1(f, key, dflt) ==      \* a field holding exactly one number
 
 (* support: the variables on whose levels the dump has nodes.  For reduced
    BDDs/BCDDs these are the variables a root depends on, for ZBDDs the
-   variables occurring in a member of a root family. *)
+   variables occurring in a member of a root family, for MTBDDs the variables
+   whose value matters. *)
 SuppOf(kind, n, vals) ==
-  IF kind = "zbdd" THEN {v \in 0 .. n-1 : \E j \in 1 .. Len(vals) : \E a \in vals[j] : Bit(a, v)}
+  IF kind = "mtbdd" THEN UNION {MtSupport(n, vals[j]) : j \in 1 .. Len(vals)}
+  ELSE IF kind = "zbdd" THEN {v \in 0 .. n-1 : \E j \in 1 .. Len(vals) : \E a \in vals[j] : Bit(a, v)}
   ELSE UNION {Support(n, vals[j]) : j \in 1 .. Len(vals)}
 RECURSIVE SortedSeq(_)
 SortedSeq(S) == IF S = {} THEN <<>>
@@ -143,15 +163,24 @@ SuppOrder(l2v, S) == SelectSeq(l2v, LAMBDA v : v \in S)
    Status: "ok" (m is defined), "bad" (the format is violated: the importer
    must reject), "open" (a terminal the specification does not know). *)
 
-TermKnown(kind, d) == IF kind = "zbdd" THEN d \in {"E", "B"} ELSE d \in {"T", "F"}
-TermDen(kind, n, d) ==
-  IF kind = "zbdd" THEN (IF d = "B" THEN {0} ELSE {})
-  ELSE (IF d = "T" THEN Asg(n) ELSE {})
+(* d: the description as string, num: its numeric view (NaN if it is not a
+   small decimal integer) *)
+TermKnown(kind, d, num) ==
+  CASE kind = "zbdd" -> d \in {"E", "B"}
+    [] kind = "mtbdd" -> num # NaN \/ d \in {"NaN", "+Inf", "-Inf"}
+    [] OTHER -> d \in {"T", "F"}
+TermDen(kind, n, d, num) ==
+  CASE kind = "zbdd" -> (IF d = "B" THEN {0} ELSE {})
+    [] kind = "mtbdd" -> MtConst(n, IF num # NaN THEN <<"n", num>>
+                                    ELSE IF d = "+Inf" THEN <<"p", 0>>
+                                    ELSE IF d = "-Inf" THEN <<"m", 0>> ELSE <<"x", 0>>)
+    [] OTHER -> (IF d = "T" THEN Asg(n) ELSE {})
 
 ChildDen(n, m, c) == IF c < 0 THEN Asg(n) \ m[-c] ELSE m[c]
 InnerDen(kind, n, v, T, E) ==
-  IF kind = "zbdd" THEN E \cup {SetBit(a, v, TRUE) : a \in T}
-  ELSE {a \in T : Bit(a, v)} \cup {a \in E : ~Bit(a, v)}
+  CASE kind = "zbdd" -> E \cup {SetBit(a, v, TRUE) : a \in T}
+    [] kind = "mtbdd" -> MtNode(n, v, T, E)
+    [] OTHER -> {a \in T : Bit(a, v)} \cup {a \in E : ~Bit(a, v)}
 
 RECURSIVE FileSemFrom(_, _, _, _, _, _, _, _)
 FileSemFrom(kind, n, L, x, lines, nn, k, m) ==
@@ -164,15 +193,17 @@ FileSemFrom(kind, n, L, x, lines, nn, k, m) ==
       LET t == ln.i[3 + x]
           e == ln.i[4 + x]
       IN  IF t = 0 \/ e = 0
-          THEN IF TermKnown(kind, ln.s[2 + x])
+          THEN IF TermKnown(kind, ln.s[2 + x], ln.i[2 + x])
                THEN FileSemFrom(kind, n, L, x, lines, nn, k + 1,
-                                (k :> TermDen(kind, n, ln.s[2 + x])) @@ m)
+                                (k :> TermDen(kind, n, ln.s[2 + x], ln.i[2 + x])) @@ m)
                ELSE [st |-> "open", m |-> m]
           ELSE LET j == ln.i[2 + x]
                    at == IF t < 0 THEN -t ELSE t
                    ae == IF e < 0 THEN -e ELSE e
                IN  IF j = NaN \/ j < 0 \/ j >= Len(L) \/ at >= k \/ ae >= k
                    THEN [st |-> "bad", m |-> m]
+                   ELSE IF kind = "mtbdd" /\ (t < 0 \/ e < 0)
+                   THEN [st |-> "open", m |-> m]    \* no complement of a number
                    ELSE FileSemFrom(kind, n, L, x, lines, nn, k + 1,
                           (k :> InnerDen(kind, n, L[j + 1], ChildDen(n, m, t), ChildDen(n, m, e))) @@ m)
 
@@ -189,6 +220,8 @@ FileSem(kind, n, L, f) ==
       THEN [st |-> "bad", roots |-> <<>>]
       ELSE LET r == FileSemFrom(kind, n, L, x, f.lines, nn, 1, EmptyMap)
            IN  IF r.st # "ok" THEN [st |-> r.st, roots |-> <<>>]
+               ELSE IF kind = "mtbdd" /\ \E j \in 1 .. Len(R) : R[j] < 0
+               THEN [st |-> "open", roots |-> <<>>]
                ELSE [st |-> "ok", roots |-> [j \in 1 .. Len(R) |-> ChildDen(n, r.m, R[j])]]
 
 (* a complete file: header ended by .nodes, node section ended by .end *)
@@ -221,7 +254,7 @@ SnapWellFormed(kind, n, N) ==
       /\ \A i \in I :
            /\ N[i][2] = N[i][3] /\ N[i][3] \in 0 .. n - 1
            /\ \A c \in {N[i][5], N[i][7]} : c < 0 \/ (c \in ids /\ lvl(c) > N[i][3])
-           /\ CASE kind = "bdd"  -> <<N[i][5], N[i][6]>> # <<N[i][7], N[i][8]>>
+           /\ CASE kind \in {"bdd", "mtbdd"} -> <<N[i][5], N[i][6]>> # <<N[i][7], N[i][8]>>
                 [] kind = "bcdd" -> <<N[i][5], N[i][6]>> # <<N[i][7], N[i][8]>> /\ N[i][6] = 0
                 [] kind = "zbdd" -> N[i][5] # -1
       /\ Cardinality({<<N[i][3], N[i][5], N[i][6], N[i][7], N[i][8]>> : i \in I}) = Len(N)
@@ -247,4 +280,5 @@ ASSUME Trim(DdChars(<<32, 97, 10, 98, 9>>)) = <<97, 32, 98>>
 ASSUME FileSem("bcdd", 2, <<1, 0>>, TestFile) = [st |-> "ok", roots |-> << {2}, {0, 2} >>]
 ASSUME FileSem("bdd", 2, <<1>>, TestFile).st = "bad"      \* variable index 1 out of range
 ASSUME FileComplete(TestFile)
+ASSUME MtSupport(2, MtNode(2, 1, MtConst(2, <<"n", 3>>), MtConst(2, <<"p", 0>>))) = {1}
 =============================================================================
